@@ -314,6 +314,10 @@ def snapshot(v, depth=0):
     return ("top",)
 
 
+_INT_RANGE = {"u8": (0, 255), "u16": (0, 65535), "u32": (0, 2**32 - 1), "u64": (0, 2**64 - 1), "usize": (0, 2**64 - 1), "u128": (0, 2**128 - 1),
+              "i8": (-128, 127), "i16": (-32768, 32767), "i32": (-2**31, 2**31 - 1), "i64": (-2**63, 2**63 - 1), "isize": (-2**63, 2**63 - 1), "i128": (-2**127, 2**127 - 1)}
+
+
 class Engine:
     def __init__(self, program, unit, inline=None, models=None, loop_limit=2, max_paths=4000, max_depth=8, enum_tables=None):
         self.program = program
@@ -520,9 +524,17 @@ class Engine:
                     r = x << y
                 elif base == "Shr":
                     r = x >> y
+                elif base == "Div" and y != 0 and not isinstance(x, bool):
+                    r = abs(x) // abs(y) * (1 if (x >= 0) == (y >= 0) else -1)
+                elif base == "Rem" and y != 0 and not isinstance(x, bool):
+                    r = abs(x) % abs(y) * (1 if x >= 0 else -1)
                 if r is not None:
                     if "WithOverflow" in op:
-                        return AggV("tuple", {0: K(r), 1: K(False)})
+                        rng = _INT_RANGE.get(ty or "")
+                        ov = rng is not None and not (rng[0] <= r <= rng[1])
+                        if ov:
+                            r = (r - rng[0]) % (rng[1] - rng[0] + 1) + rng[0]
+                        return AggV("tuple", {0: K(r), 1: K(bool(ov))})
                     return K(r)
             except Exception:
                 pass
@@ -566,7 +578,11 @@ class Engine:
             if rv["kind"] == "IntToInt":
                 v = self.resolve(st, v)
                 if isinstance(v, K):
-                    return K(int(v.v))
+                    x = int(v.v)
+                    rng = _INT_RANGE.get(rv.get("ty") or "")
+                    if rng is not None and not (rng[0] <= x <= rng[1]):
+                        x = (x - rng[0]) % (rng[1] - rng[0] + 1) + rng[0]
+                    return K(x)
                 if isinstance(v, DiscrV):
                     return v
             return st.fresh(("cast", rv["kind"], rv["ty"], snapshot(v)))
@@ -575,7 +591,10 @@ class Engine:
         if k == "unop":
             a = self.resolve(st, self.operand(st, fr, rv["a"]))
             if rv["op"] == "Not" and isinstance(a, K):
-                return K((not a.v) if isinstance(a.v, bool) else ~a.v)
+                if isinstance(a.v, bool):
+                    return K(not a.v)
+                rng = _INT_RANGE.get(rv.get("ty") or "")
+                return K(rng[1] - a.v) if rng is not None and rng[0] == 0 else K(~a.v)
             if rv["op"] == "Neg" and isinstance(a, K):
                 return K(-a.v)
             if rv["op"] == "Not" and isinstance(a, SymV):
